@@ -169,17 +169,18 @@ def _build(backend, spec, **kw):
     return (D.pandas_schema if backend == "pandas" else D.polars_schema)(spec, **kw)
 
 
-def _relations(run, backend, kind, spec, table, muts, lazy, schemas, obj):
+def _relations(run, backend, kind, spec, table, muts, lazy, schemas, obj,
+               vkw=None):
     import pandera.config as c
     # a fresh schema object for every validate call: a failing validate may
     # leave a schema component modified (that is C05/C06's finding, D2) and
     # must not leak into the next verdict of this case
     S_full, S_schema, S_data = schemas
     before = S.snap(obj)
-    got = {d: D.verdict(S_full(), obj, d, lazy)[0] for d in D.DEPTHS}
-    vs = D.verdict(S_schema(), obj, "SCHEMA_AND_DATA", lazy)[0]
-    vd = D.verdict(S_data(), obj, "SCHEMA_AND_DATA", lazy)[0]
-    default = D.verdict(S_full(), obj, None, lazy)[0]
+    got = {d: D.verdict(S_full(), obj, d, lazy, vkw)[0] for d in D.DEPTHS}
+    vs = D.verdict(S_schema(), obj, "SCHEMA_AND_DATA", lazy, vkw)[0]
+    vd = D.verdict(S_data(), obj, "SCHEMA_AND_DATA", lazy, vkw)[0]
+    default = D.verdict(S_full(), obj, None, lazy, vkw)[0]
     if c.get_config_context(validation_depth_default=None) != \
             c.get_config_global():
         run.violation("config-not-restored-after-validate",
@@ -190,7 +191,7 @@ def _relations(run, backend, kind, spec, table, muts, lazy, schemas, obj):
         return
     wit = {"backend": kind, "spec": spec, "table": table, "mutations": muts,
            "lazy": lazy, "verdicts": got, "schema_part": vs, "data_part": vd,
-           "default": default}
+           "default": default, "validate_kwargs": vkw}
     if "exc" in (vs, vd) or "exc" in got.values() or default == "exc":
         # an internal exception is C06's business; no depth verdict to compare
         run.count(f"undecided:internal-exception:{kind}")
@@ -223,7 +224,15 @@ def _relations(run, backend, kind, spec, table, muts, lazy, schemas, obj):
         c.reset_config_context()
 
     bk = "pandas" if kind == "pandas" else "polars"
-    if spec.get("strict") == "filter":
+    if vkw:
+        # nulls + subsampling: the level of nullability is not documented
+        # consistently -> only R3/R4 are judged
+        run.count("undecided:R1-R2-nullability-level-under-depth")
+        run.count(f"depth:subsample-family:{kind}")
+        for k in vkw:
+            run.count(f"depth:subsample-family:option:{k}")
+        run.count("depth:subsample-family:full_" + got["SCHEMA_AND_DATA"])
+    elif spec.get("strict") == "filter":
         # the level of a parser is not documented: only R3/R4 are judged
         run.count("undecided:R1-R2-parser-level-under-depth")
         run.count(f"depth:filter-family:{kind}")
@@ -234,7 +243,13 @@ def _relations(run, backend, kind, spec, table, muts, lazy, schemas, obj):
         (got["SCHEMA_ONLY"] == "accept" and got["DATA_ONLY"] == "accept"),
         None, bk)
     if kind == "polars.LazyFrame":
-        rel("R4-lazyframe-default-schema-only", default == vs, None, bk)
+        if vkw:
+            # compares with schema_part(S) at full depth, which depends on the
+            # level of nullability: the default must equal explicit SCHEMA_ONLY
+            rel("R4-lazyframe-default-equals-explicit-schema-only",
+                default == got["SCHEMA_ONLY"], None, bk)
+        else:
+            rel("R4-lazyframe-default-schema-only", default == vs, None, bk)
     else:
         # pandas and polars DataFrame: the default is full depth
         rel("R4-dataframe-default-full", default == got["SCHEMA_AND_DATA"],
@@ -290,6 +305,12 @@ def depth_case(run, rng, i, shard=0):
     neutral = rng.random() < 0.5
     spec, table, muts = D.gen_case(rng, neutral)
     lazy = rng.random() < 0.5
+    vkw = None
+    if spec["kind"] == "frame" and spec.get("strict") != "filter" \
+            and rng.random() < 0.15:
+        vkw = D.add_subsample_family(rng, spec, table)
+        if vkw:
+            muts = list(muts) + [("subsample_family", sorted(vkw))]
     nontrivial = D.n_schema_constraints(spec) > 0 and \
         D.n_data_constraints(spec) > 0
     parts = (spec, D.schema_part(spec), D.data_part(spec))
@@ -312,8 +333,10 @@ def depth_case(run, rng, i, shard=0):
                      if nontrivial and muts else None)
             run.count(f"depth:case:{kind}")
             run.count(f"depth:spec_kind:{spec['kind']}")
-            _relations(run, backend, kind, spec, table, muts, lazy, schemas, obj)
-            _disabled(run, backend, kind, spec, table, obj, rng)
+            _relations(run, backend, kind, spec, table, muts, lazy, schemas, obj,
+                       vkw)
+            if not vkw:
+                _disabled(run, backend, kind, spec, table, obj, rng)
     for m in muts:
         run.count(f"depth:mutation:{m[0]}")
 
@@ -370,6 +393,10 @@ def finalize(run, ctx):
         "depth:R2:evaluated": 600 if q else 20000,
         "depth:R3:evaluated": 600 if q else 20000,
         "depth:filter-family:pandas": 18 if q else 350,
+        "depth:subsample-family:pandas": 12 if q else 250,
+        "depth:subsample-family:polars.DataFrame": 6 if q else 120,
+        "depth:subsample-family:full_accept": 12 if q else 250,
+        "depth:subsample-family:full_reject": 10 if q else 200,
         "depth:filter-family:polars.DataFrame": 8 if q else 150,
         "env:ctx_probe:reject": 70 if q else 450,
         "env:ctx_probe:accept": 90 if q else 550,
